@@ -274,6 +274,50 @@ fn lists_in_context(obs: &mut Obs) -> CaseResult {
             f
         })?;
     }
+    // a string that is NOT a format name must not pass as one wherever it stands in the list -
+    // in front of, between and behind valid names, also once both slots for known formats are
+    // taken (the list's "other format present" flag is this entry point's form of rejection)
+    const NOT_FORMATS: [&str; 12] = ["tpm", "fido-u2f", "Packed", "PACKED", "pack", "packed2", "packe", "None", "non", "none ", "none\0", ""];
+    for prefix in [vec![], vec!["none"], vec!["packed"], vec!["packed", "none"], vec!["none", "none"], vec!["none", "packed", "none"], vec!["packed", "packed", "packed", "none"]] {
+        for bad in NOT_FORMATS {
+            for pos in 0..=prefix.len() {
+                let mut list: Vec<&str> = prefix.clone();
+                list.insert(pos, bad);
+                let v = Value::Array(list.iter().map(|x| Value::text(x)).collect());
+                obs.sub_evals += 1;
+                crate::props::c14::check_formats_list(&v, obs).map_err(|mut f| {
+                    f.sig = format!("C18:AttestationStatementFormat:in-list:not-a-format:{}", f.sig);
+                    f
+                })?;
+            }
+        }
+    }
+    // the string lists of GetInfo: one entry that is not a spelling of that enumeration makes the
+    // list undecodable, wherever it stands
+    for (key, (name, spellings)) in [(1i64, STRING_ENUMS[0]), (2, STRING_ENUMS[1]), (9, STRING_ENUMS[2])] {
+        for a in spellings.iter() {
+            let mut bads: Vec<String> = vec![a.to_lowercase(), a.to_uppercase(), format!("{}2", a), format!("{} ", a), a[..a.len() - 1].to_string(), String::new()];
+            bads.retain(|b| !spellings.contains(&b.as_str()));
+            for bad in bads {
+                for front in [false, true] {
+                    let list = if front { vec![Value::text(&bad), Value::text(a)] } else { vec![Value::text(a), Value::text(&bad)] };
+                    let mut m = vec![kt(1, Value::Array(vec![Value::text("FIDO_2_0")])), kt(3, Value::Bytes(vec![0; 16]))];
+                    m.retain(|(k, _)| *k != Value::int(key));
+                    m.push(kt(key, Value::Array(list)));
+                    let enc = refcbor::encode_canonical(&Value::Map(m));
+                    obs.sub_evals += 1;
+                    let got: Result<get_info::Response, _> = cbor_deserialize(&enc);
+                    if got.is_ok() {
+                        return Err(Fail::new(
+                            format!("C18:{}:in-list:not-a-spelling-accepted", name),
+                            format!("GetInfo member {} containing {:?} next to {:?} was decoded", key, bad, a),
+                            json!({"input_hex": hex(&enc)}),
+                        ));
+                    }
+                }
+            }
+        }
+    }
     Ok(())
 }
 
@@ -651,7 +695,7 @@ pub fn crossovers() -> Vec<String> {
     out.into_iter().collect()
 }
 
-pub const RULE: &str = "Exhaustive for every table. The permission bit set is additionally checked as a set: complement, union, intersection, difference, symmetric difference, contains / intersects over all pairs of the 64 defined sets against the same operations on the numbers (no operation may produce an undefined bit). Every pair (and triple with a repeat) of valid spellings is also decoded inside the list members that carry them (GetInfo versions / extensions / transports, attestationFormatsPreference): each occurrence must be recognised as the identifier it spells. Every probed string is additionally presented to the decoder as a byte string, a one-element array, a tagged text and a text with a non-minimal length prefix (all must be rejected). Cross-combinations of two valid spellings (concatenation, spelling + every suffix of another, prefix + spelling, prefix/suffix cross-overs) are presented to every string enumeration as well. String enumerations (Version, Extension, Transport, AttestationStatementFormat): every valid spelling of every enumeration is presented to every enumeration, together with every single-character deletion, substitution and insertion over [A-Za-z0-9_-], every case change, every proper prefix, one-character extensions, padded and NUL-terminated variants and the empty string - accepted iff the string is a valid spelling of THAT enumeration - through TryFrom<&str>/From and through cbor_deserialize/cbor_serialize; plus proptest random strings. Numeric enumerations (PinV1Subcommand, Subcommand, CredentialProtectionPolicy, ControlByte): all 256 byte values through TryFrom<u8> where it exists and through the decoder, integers at every head-width threshold up to 2^64-1, and negative integers. The U2F control byte is also presented where it travels: as P1 (all 256 values) of a well-formed authenticate APDU in short and extended framing through both conversions - accepted iff 3, 7 or 8 and then as exactly that control byte. One whole-table case: `as u8` of every named status against the CTAP status table, permission bits, the spelling / number of every variant, pairwise distinct codes. Oracle: the specification tables in the harness. Every probe is a distinct (table, value) pair.";
+pub const RULE: &str = "Exhaustive for every table. The permission bit set is additionally checked as a set: complement, union, intersection, difference, symmetric difference, contains / intersects over all pairs of the 64 defined sets against the same operations on the numbers (no operation may produce an undefined bit). Every pair (and triple with a repeat) of valid spellings is also decoded inside the list members that carry them (GetInfo versions / extensions / transports, attestationFormatsPreference): each occurrence must be recognised as the identifier it spells; and a string that is not a spelling is presented in front of, between and behind valid ones (also behind the two format names that fill the preference list): it must never pass as an identifier. Every probed string is additionally presented to the decoder as a byte string, a one-element array, a tagged text and a text with a non-minimal length prefix (all must be rejected). Cross-combinations of two valid spellings (concatenation, spelling + every suffix of another, prefix + spelling, prefix/suffix cross-overs) are presented to every string enumeration as well. String enumerations (Version, Extension, Transport, AttestationStatementFormat): every valid spelling of every enumeration is presented to every enumeration, together with every single-character deletion, substitution and insertion over [A-Za-z0-9_-], every case change, every proper prefix, one-character extensions, padded and NUL-terminated variants and the empty string - accepted iff the string is a valid spelling of THAT enumeration - through TryFrom<&str>/From and through cbor_deserialize/cbor_serialize; plus proptest random strings. Numeric enumerations (PinV1Subcommand, Subcommand, CredentialProtectionPolicy, ControlByte): all 256 byte values through TryFrom<u8> where it exists and through the decoder, integers at every head-width threshold up to 2^64-1, and negative integers. The U2F control byte is also presented where it travels: as P1 (all 256 values) of a well-formed authenticate APDU in short and extended framing through both conversions - accepted iff 3, 7 or 8 and then as exactly that control byte. One whole-table case: `as u8` of every named status against the CTAP status table, permission bits, the spelling / number of every variant, pairwise distinct codes. Oracle: the specification tables in the harness. Every probe is a distinct (table, value) pair.";
 pub const ASSUMPTIONS: &[&str] = &["identifier tables transcribed from CTAP 2.1 (sections 6.4, 6.5.5, 6.8, 8.2) and the U2F raw message format"];
 
 pub fn run(ctx: &mut Ctx) {
